@@ -85,7 +85,9 @@ def stmt_lines(kind, k, ref=None):
         # a line of a string literal that ENDS IN BLANKS (significant: they are part of the value)
         return ['zw%d = """l1   ' % k, 'l2""" + str(t(%d))' % k]
     if kind == 'starimport':
-        return ['from %s import *' % ['os.path', 'math', 'string'][k % 3]]
+        # a third of them carry something after the star (a linter remark, a directive): still a star import
+        tail = ['', '', '  # NOQA', '', '', '  # xdoctest: +ELLIPSIS'][(k * 7 + 3) % 6]
+        return ['from %s import *%s' % (['os.path', 'math', 'string'][k % 3], tail)]
     if kind == 'directive':
         return ['# xdoctest: +ELLIPSIS']
     return gd.statement(kind, k)[0]
